@@ -906,6 +906,89 @@ pub fn c05_c40_value_sequences() -> Phase {
     }
 }
 
+/// What FOLLOWS a C40 / Text / X12 segment (round 25): every one-pair segment over the special values x the unlatch x
+/// 24 continuations (nothing, a character, upper shift + a low / high / no codeword, a charset switch with a high
+/// byte, a one-byte Base256 segment, a re-latch into each mode, pad, FNC1, a digit pair, a second unlatch, ...), and
+/// every two-pair segment x the three continuations that produce a byte (plain, upper-shifted low, upper-shifted high).
+/// State that a segment's last values leave behind (a pending shift, an upper shift) meets every kind of next segment.
+pub fn c05_c40_then_tail() -> Phase {
+    const V: [u32; 10] = [0, 1, 2, 3, 27, 30, 31, 32, 39, 40];
+    const P: u64 = 10 * 9 * 9;
+    const T1: u64 = 24;
+    const T2: u64 = 3;
+    let n1 = P * T1;
+    let n2 = P * P * T2;
+    let total = (n1 + n2) * 3;
+    fn pair(r: u64, data: &mut Vec<u8>) {
+        const V: [u32; 10] = [0, 1, 2, 3, 27, 30, 31, 32, 39, 40];
+        let a = V[(r % 10) as usize];
+        let b = V[((r / 10) % 9) as usize];
+        let c = V[((r / 90) % 9) as usize];
+        let x = (1600 * a + 40 * b + c + 1).min(65535);
+        data.push((x >> 8) as u8);
+        data.push((x & 0xFF) as u8);
+    }
+    let _ = V;
+    let make = move |_ctx: &Ctx, i: u64| -> Trace {
+        let latch = [230u8, 239, 238][(i / (n1 + n2)) as usize];
+        let r = i % (n1 + n2);
+        let mut data = vec![latch];
+        let tail: u64;
+        if r < n1 {
+            pair(r % P, &mut data);
+            tail = r / P;
+        } else {
+            let q = r - n1;
+            pair(q % P, &mut data);
+            pair((q / P) % P, &mut data);
+            tail = [1u64, 2, 3][(q / (P * P)) as usize];
+        }
+        data.push(254);
+        match tail {
+            0 => {}
+            1 => data.push(0x42),
+            2 => data.extend_from_slice(&[235, 1]),
+            3 => data.extend_from_slice(&[235, 128]),
+            4 => data.push(235),
+            5 => data.extend_from_slice(&[241, 27, 235, 0x45]),
+            6 => data.extend_from_slice(&[241, 4, 235, 0x60]),
+            7 => {
+                data.push(231);
+                let p = data.len() + 1;
+                data.push(rand255(1, p));
+                let p = data.len() + 1;
+                data.push(rand255(0xE4, p));
+            }
+            8 => data.extend_from_slice(&[230, 0x59, 0xBF, 254]),
+            9 => data.extend_from_slice(&[239, 0x59, 0xBF, 254]),
+            10 => data.extend_from_slice(&[238, 0x59, 0xBF, 254]),
+            11 => data.extend_from_slice(&[240, 0x04, 0x21, 0x5F]),
+            12 => data.push(129),
+            13 => data.push(232),
+            14 => data.push(142),
+            15 => data.push(254),
+            16 => data.extend_from_slice(&[230, 0x06, 0x69]), // re-latch, shift values, never unlatched
+            17 => data.extend_from_slice(&[239, 254, 235, 0x7F]),
+            18 => data.extend_from_slice(&[235, 235, 1]),
+            19 => data.extend_from_slice(&[0x42, 235, 128, 0x42]),
+            20 => data.extend_from_slice(&[236]),
+            21 => data.extend_from_slice(&[233, 0x11, 1, 1]),
+            22 => data.extend_from_slice(&[241, 235]),
+            _ => {
+                // no unlatch at all: the continuation is read as values
+                data.pop();
+                data.extend_from_slice(&[235, 1]);
+            }
+        }
+        Trace { prop: "C05".into(), producer: Producer::Stream { data }, faults: vec![] }
+    };
+    Phase {
+        source: Source::Sweep { name: "sweep_c40_text_x12_segment_then_continuation".into(), prop: "C05".into(), make: Box::new(make) },
+        runs: total,
+        wall_cap_s: 0,
+    }
+}
+
 /// Fabricated symbols (template-correct fixed pattern) whose data area is uniform except for ONE data row or
 /// ONE data column of the other colour, for every row and column of every size, both polarities; plus the
 /// plain stripe / checkerboard fills. Content that random data never produces.
@@ -1340,9 +1423,11 @@ pub fn c05_eci_three_byte_designators(all: bool) -> Phase {
 /// light, clock phase, other phase), and the data line next to each outer edge with each pattern - kept only when
 /// the damage stays within the correction radius (three data vectors are tried). Whole pipeline, pixel stage.
 pub fn c03_mimic_boundaries(seed: u64) -> Phase {
+    // per size: every interior boundary x 16 pattern pairs, every outer edge x 4 patterns, and (round 25) the four
+    // corner Ls of outermost data lines x 16 pattern pairs plus the complete frame x 4 patterns
     let per = |s: usize| -> u64 {
         let z = &SIZES[s];
-        ((z.reg_rows - 1) + (z.reg_cols - 1)) as u64 * 16 + 16
+        ((z.reg_rows - 1) + (z.reg_cols - 1)) as u64 * 16 + 16 + 4 * 16 + 4
     };
     let prefix = prefix_of(per);
     let total = prefix[N_SIZES];
@@ -1351,6 +1436,36 @@ pub fn c03_mimic_boundaries(seed: u64) -> Phase {
         let s = &SIZES[si];
         let nh = (s.reg_rows - 1) as u64;
         let nv = (s.reg_cols - 1) as u64;
+        if r >= (nh + nv) * 16 + 16 {
+            let q = r - ((nh + nv) * 16 + 16);
+            let (hl, _) = crate::gen::data_lines(s, true);
+            let (vl, _) = crate::gen::data_lines(s, false);
+            let mixed: Vec<(bool, usize, u8)> = if q < 64 {
+                let corner = q / 16;
+                let pa = ((q % 16) / 4) as u8;
+                let pb = (q % 4) as u8;
+                let row = if corner / 2 == 0 { hl[0] } else { hl[hl.len() - 1] };
+                let col = if corner % 2 == 0 { vl[0] } else { vl[vl.len() - 1] };
+                vec![(true, row, pa), (false, col, pb)]
+            } else {
+                let p = (q - 64) as u8;
+                vec![(true, hl[0], p), (true, hl[hl.len() - 1], p), (false, vl[0], p), (false, vl[vl.len() - 1], p)]
+            };
+            for variant in [0u64, 4, 8, 2, 1] {
+                let data = seeded_data(seed, si, variant);
+                let size = s.size;
+                let d = data.clone();
+                if let Ok(ec) = crate::exec::guard(move || datamatrix::errorcode::encode_error(&d, size)) {
+                    let mut all = data.clone();
+                    all.extend_from_slice(&ec);
+                    let mut faults = Vec::new();
+                    if crate::gen::mimic_lines_mixed(ctx, s, &all, &mixed, &mut faults) {
+                        return Trace { prop: "C03".into(), producer: Producer::Raw { size: si, data }, faults };
+                    }
+                }
+            }
+            return Trace { prop: "C03".into(), producer: Producer::Raw { size: si, data: seeded_data(seed, si, 0) }, faults: vec![] };
+        }
         let (horizontal, lines): (bool, Vec<(usize, u8)>) = if r < (nh + nv) * 16 {
             let b = r / 16;
             let pa = ((r % 16) / 4) as u8;
@@ -1447,14 +1562,31 @@ pub fn c05_pad_structures() -> Phase {
 pub fn framed_symbols(prop: &'static str, seed: u64) -> Phase {
     // anisotropic magnifications (pixels wide, pixels high), encoded for Op::GeoScale as kx + 16 * ky
     const STRETCH: [(u32, u32); 10] = [(2, 1), (1, 2), (3, 1), (1, 3), (4, 1), (1, 4), (2, 3), (3, 2), (2, 4), (4, 2)];
-    let per_size: u64 = 3 * 3 + 1 + 3 + STRETCH.len() as u64;
+    // (round 25) the symbol TRANSLATED inside a crop of unchanged dimensions: 1 or 2 rows / columns of light or dark
+    // margin on one side, as many cut off on the opposite side - two deviations that cancel in the dimension check
+    const SHIFTS: u64 = 4 * 2 * 2;
+    let per_size: u64 = 3 * 3 + 1 + 3 + STRETCH.len() as u64 + SHIFTS;
     let total = N_SIZES as u64 * per_size;
     let make = move |_ctx: &Ctx, i: u64| -> Trace {
         let si = (i / per_size) as usize;
         let r = i % per_size;
         let s = &SIZES[si];
         let mut faults = Vec::new();
-        if r >= 13 {
+        if r >= 13 + STRETCH.len() as u64 {
+            let q = r - 13 - STRETCH.len() as u64;
+            let side = (q / 4) as u32; // GeoMargin: 0 right, 1 left, 2 bottom, 3 top
+            let n = (q % 2 + 1) as u32;
+            let fill = ((q / 2) % 2) as u32;
+            faults.push(Fault::new("geo_frame", Op::GeoMargin { side, n, fill }));
+            for j in 0..n {
+                match side {
+                    0 => faults.push(Fault::new("geo_col_drop", Op::GeoColDrop { c: 0 })),
+                    1 => faults.push(Fault::new("geo_col_drop", Op::GeoColDrop { c: s.cols as u32 + n - 1 - j })),
+                    2 => faults.push(Fault::new("geo_row_drop", Op::GeoRowDrop { r: 0 })),
+                    _ => faults.push(Fault::new("geo_row_drop", Op::GeoRowDrop { r: s.rows as u32 + n - 1 - j })),
+                }
+            }
+        } else if r >= 13 {
             let (kx, ky) = STRETCH[(r - 13) as usize];
             faults.push(Fault::new("geo_frame", Op::GeoScale { k: kx + 16 * ky }));
         } else if r < 9 {
